@@ -72,6 +72,68 @@ func callbackCall(f *ssa.Function) *ssa.Call {
 func runC14(c *Ctx) {
 	p := c.P
 	ruleAdaptersAlwaysAskTheScheme(c, "R14.2")
+	// the client never rewrites a list of writers it was handed (Compose(list...) shares the caller's backing array: an
+	// in-place filter shifts the caller's elements, and a writer taken from that list later is another credential)
+	for _, fn := range p.LibFuncs("rt/client") {
+		for _, in := range ownInstrs(fn) {
+			sl, ok := in.(*ssa.Slice)
+			if !ok || sl.High == nil || sl.Low != nil {
+				continue
+			}
+			if k, isK := constInt(sl.High); !isK || k != 0 {
+				continue
+			}
+			fromParam, _ := allOrigins(sl.X, func(o Origin) bool { _, isP := o.V.(*ssa.Parameter); return isP })
+			if !fromParam || !strings.Contains(typeStr(sl.Type()), "ClientAuthInfoWriter") {
+				continue
+			}
+			for _, ci := range callsIn(fn, "builtin append") {
+				if call, isCall := ci.(*ssa.Call); isCall && ci.Parent() == fn && typeStr(call.Type()) == typeStr(sl.Type()) && pathExists(fn, sl, ci, nil, nil) {
+					c.obD("R14.5", ci, "caller-writer-list-not-rewritten", false, "a list of auth writers handed to the client is read, never filtered in place", short(fn.String())+" appends into "+describe(sl)+": the caller's slice is shifted")
+				}
+			}
+		}
+	}
+	// a transport wrapper that submits a COPY of the caller's operation copies its credentials too: an operation rebuilt
+	// field by field without AuthInfo goes out with the transport-wide default credential (or none)
+	for _, fn := range p.LibFuncs("rt/client") {
+		for _, in := range ownInstrs(fn) {
+			al, ok := in.(*ssa.Alloc)
+			if !ok || typeStr(al.Type()) != "*rt.ClientOperation" {
+				continue
+			}
+			stored := map[string]bool{}
+			whole := false
+			if al.Referrers() != nil {
+				for _, ref := range *al.Referrers() {
+					switch x := ref.(type) {
+					case *ssa.FieldAddr:
+						if _, stt := structOf(x.X.Type()); stt != nil {
+							stored[stt.Field(x.Field).Name()] = true
+						}
+					case *ssa.Store:
+						if x.Addr == ssa.Value(al) {
+							whole = true // *copy = *op
+						}
+					}
+				}
+			}
+			if whole {
+				continue
+			}
+			submitted := false
+			for _, ci := range allCalls(fn) {
+				for _, a := range ci.Common().Args {
+					if a == ssa.Value(al) && (ifaceMethodCalled(ci.Common()) == "Submit" || strings.HasSuffix(calleeName(ci.Common()), ").Submit")) {
+						submitted = true
+					}
+				}
+			}
+			if submitted {
+				c.obD("R14.6", al, "copied-operation-keeps-its-credentials", stored["AuthInfo"], "an operation a transport rebuilds before submitting it carries the caller's AuthInfo", short(fn.String())+" submits a ClientOperation built field by field without AuthInfo: the operation's own credential is dropped")
+			}
+		}
+	}
 	type variant struct {
 		outer string
 		ctx   bool
